@@ -123,7 +123,14 @@ func mathLog(L *LState) int {
 }
 
 func mathLog10(L *LState) int {
-	L.Push(LNumber(math.Log10(float64(L.CheckNumber(1)))))
+	x := float64(L.CheckNumber(1))
+	r := math.Log10(x)
+	// Go computes log2(x) * (Ln2/Ln10), which misses the integer for some powers
+	// of ten; C's log10 is exact there
+	if p := math.Round(r); p != r && math.Abs(p) <= 400 && math.Pow10(int(p)) == x {
+		r = p
+	}
+	L.Push(LNumber(r))
 	return 1
 }
 
